@@ -38,26 +38,26 @@ theorem gen_eq_StorageDissolvedDecay_real (ism dt dsd ari bff mfrt sm a b c d : 
   (gen_eq_StorageDissolvedDecay litZero_real ism dt dsd ari bff mfrt sm a b c d).2.2.2.1
 
 /-- `gen_eq_InstreamDissolvedNutrient` (one iteration of the decay loop) at `ℝ`, unconditionally -/
-theorem gen_eq_InstreamDissolvedNutrient_real (sm dd psl lh lw ll uv dur tsd psps pv up lat vol out : ℝ) :
-    instreamDissolvedNutrient.step dd psl lh lw ll uv dur tsd psps sm pv up lat vol out =
-      (let r := InstreamDissolvedNutrient.step sm psps lh lw ll uv dur tsd pv (up, lat, vol, out)
+theorem gen_eq_InstreamDissolvedNutrient_real (sm dd psl lh lw ll uv dur pv up lat vol out : ℝ) :
+    instreamDissolvedNutrient.step dd psl lh lw ll uv dur sm pv up lat vol out =
+      (let r := InstreamDissolvedNutrient.step sm (psl / 31557600) lh lw ll uv dur (86400 / dur) pv (up, lat, vol, out)
        ((sm, r.1), (r.2.decayed.getD Num.zero, r.2.downstream, r.2.pointSource.getD Num.zero))) :=
-  (gen_eq_InstreamDissolvedNutrient litZero_real natZero_real sm dd psl lh lw ll uv dur 0 0 tsd psps pv up lat vol out).2.2.2.2.2.2.2
+  (gen_eq_InstreamDissolvedNutrient litZero_real natZero_real sm dd psl lh lw ll uv dur 0 0 pv up lat vol out).2.2.2.2.2.2
 
 /-- `gen_eq_InstreamFineSediment` (one iteration of the main path) at `ℝ`, unconditionally -/
 theorem gen_eq_InstreamFineSediment_real (p : InstreamFineSediment.Params ℝ) (csf tsm up lat loc vol out : ℝ) :
     instreamFineSediment.step p.bankFullFlow p.fineSedSettVelocityFlood p.floodPlainArea p.linkWidth p.linkLength p.linkSlope
         p.bankHeight p.propBankHeightForFineDep p.sedBulkDensity p.manningsN p.fineSedSettVelocity p.fineSedReMobVelocity
-        p.durationInSeconds (InstreamFineSediment.maxStorage p) csf tsm up lat loc vol out =
+        p.durationInSeconds csf tsm up lat loc vol out =
       (let r := InstreamFineSediment.stepMain p (csf, tsm) (up, lat, loc, vol, out)
        (r.1, (r.2.loadDownstream, r.2.loadToFloodplain, r.2.loadToChannelDeposition, r.2.floodplainDepositionFraction,
               r.2.channelDepositionFraction))) :=
-  (gen_eq_InstreamFineSediment lit1000_real lit86400_real p csf tsm up lat loc vol out).2.2.2.2
+  (gen_eq_InstreamFineSediment lit1000_real lit86400_real litZero_real p csf tsm up lat loc vol out).2.2.2
 
 /-- `gen_eq_ClimateVariables` (one iteration, including the bisection) at `ℝ`, unconditionally -/
-theorem gen_eq_ClimateVariables_real (elevation pa t rh : ℝ) :
-    climateVariables.step elevation pa t rh =
-      (let r := Climate.sample pa t rh; (r.vaporPressure, r.dewPoint, r.wetBulb, r.deltaT)) :=
-  (gen_eq_ClimateVariables natZero_real elevation pa t rh 0 0 0 0).2.2.2.2.2.2.2.2.2
+theorem gen_eq_ClimateVariables_real (elevation t rh : ℝ) :
+    climateVariables.step elevation t rh =
+      (let r := Climate.sample (Climate.barometricPressure elevation) t rh; (r.vaporPressure, r.dewPoint, r.wetBulb, r.deltaT)) :=
+  (gen_eq_ClimateVariables natZero_real elevation 0 t rh 0 0 0 0).2.2.2.2.2.2.2.2
 
 end OW.Props.GenTie
